@@ -639,11 +639,13 @@ class Cfg:
         self.use_builtins = True
         self.use_vidx = True
         self.max_stmts = 4
+        self.odd_names = 6  # percent chance per argument of an internal-looking name
         self.ret_kinds = ("bool", "int", "tuple", "char", "fixed")
         self.__dict__.update(kw)
 
 
 NAMES = ["a", "b", "c", "d", "e", "g"]
+ODD_NAMES = ["anc_0", "anc_1", "TRUE", "FALSE", "x0", "x1", "q0", "q1", "ret", "_r", "_iftarg2", "_temptup"]
 LOCALS = ["x", "y", "z", "u", "w"]
 
 
@@ -1114,7 +1116,12 @@ def program(draw, cfg=None, ret=None, name="f", args=None, fns=None, params=()):
                 break
             t = any_type(draw, cfg, max(1, rem - (nargs - 1 - i)))
             rem -= nbits(t)
-            args.append([NAMES[i], t])
+            nm = NAMES[i]
+            if cfg.odd_names and draw(st.integers(0, 99)) < cfg.odd_names:
+                # legal python identifiers that coincide with names the library uses internally
+                cands = [x for x in ODD_NAMES if x not in [a_[0] for a_ in args]]
+                nm = draw(st.sampled_from(cands))
+            args.append([nm, t])
     env = {a[0]: a[1] for a in args}
     g = G(draw, cfg, env)
     for fn_name, (fts, rt) in (fns or {}).items():
